@@ -187,7 +187,7 @@ def stepGeom (cfg : Cfg) (s : St)  : Except String St :=
 
 def stepEvalBegin (cfg : Cfg) (s : St) (pen : Nat) (upid : Nat) : Except String St :=
   if s.ev.isSome then .error "C06 nested evaluation"
-  else if s.pend.isSome then .error "C09 evaluation after a stopping request"
+  else if s.pend.isSome then .error "C07,C09 evaluation after a stopping request"
   else
     match s.phase with
     | .building st _ _ =>
@@ -269,7 +269,7 @@ def stepEvalEnd (cfg : Cfg) (s : St) (fbar : Nat) : Except String St :=
     match c.got with
     | some (f, v) =>
       if cfg.hasCb && c.cbN ≠ 1 then .error "C20 callback not called for this evaluation"
-      else if c.stop then .error "C09 evaluation continued after the callback asked to stop"
+      else if c.stop then .error "C09,C20 evaluation continued after the callback asked to stop"
       else if keyOfBits fbar ≠ barrierKey (keyOfBits f) then .error "C08 value handed to the models is not the barrier of the raw value"
       else
         let feasible := le (keyOfBits v) cfg.tol
@@ -315,17 +315,17 @@ def raiseCheck (cfg : Cfg) (s : St) (k : Kind) : Option String :=
     match k with
     | .callback =>
       if s.pend = some .callback then none
-      else some "C09 CallbackSuccess without a stop request from the callback"
+      else some "C07,C09 CallbackSuccess without a stop request from the callback"
     | .target =>
       if s.pend = some .target then none
-      else some "C09 TargetSuccess although the last evaluation did not meet the target feasibly"
+      else some "C07,C09 TargetSuccess although the last evaluation did not meet the target feasibly"
     | .feasible =>
       if s.pend = some .feasible then none
-      else some "C09 FeasibleSuccess although the last evaluation was not a feasible point of a feasibility problem"
+      else some "C07,C09 FeasibleSuccess although the last evaluation was not a feasible point of a feasibility problem"
     | .maxeval =>
       if s.pend.isSome then some "C09 MaxEvalError although a stop request is pending"
       else if !evalSite cfg s then some "C05 MaxEvalError at an impossible moment"
-      else if s.nEval < cfg.maxfev then some "C05 MaxEvalError although the budget is not exhausted"
+      else if s.nEval < cfg.maxfev then some "C05,C07 MaxEvalError although the budget is not exhausted"
       else none
     | .linalg =>
       if s.pend.isSome then some "C09 LinAlgError although a stop request is pending"
@@ -344,7 +344,7 @@ def stepRaise (cfg : Cfg) (s : St) (k : Kind) : Except String St :=
 
 /-- may `_build_result(pb, pen, success, status, nit, options)` be called now? (none = yes) -/
 def buildCheck (cfg : Cfg) (s : St) (pen : Nat) (success : Bool) (status : Int) (nit : Nat) : Option String :=
-  if s.ev.isSome || s.pend.isSome then some "C09 result assembled while a stop request is pending"
+  if s.ev.isSome || s.pend.isSome then some "C07,C09 result assembled while a stop request is pending"
   else if nit ≠ s.nIter then some "C05 nit is not the number of iterations"
   else
     match s.phase with
